@@ -70,6 +70,12 @@ def generate(repo, emit, src, func_body):
         m1 = re.search(r'int size = vsnprintf\(NULL, 0, fmt, va_tmp\);', gen)
         m2 = re.search(r's->val = realloc\(s->val, pos \+ size(?: \+ (\d+))?\);', gen)
         m3 = re.search(r'return vsprintf\(s->val \+ pos, fmt, va\);', gen)
+        if not m3:
+            # repaired form (fix: arguments are rendered into a temporary before the String is reallocated):
+            #   char* tmp = malloc(size + 1); vsprintf(tmp, fmt, va); realloc(..., pos + size + 1);
+            #   memcpy(s->val + pos, tmp, size + 1); free(tmp); return size;
+            m3 = (re.search(r'char\* tmp = malloc\(size \+ 1\);', gen) and re.search(r'vsprintf\(tmp, fmt, va\);', gen)
+                  and re.search(r'memcpy\(s->val \+ pos, tmp, size \+ 1\); free\(tmp\); return size;', gen))
         if m1 and m2 and m3:
             ok = 'Definition string_fmt_room : nat := %s.   (* source: realloc(s->val, pos + size + %s) then vsprintf(s->val + pos, ...) *)' % (
                 m2.group(1) or '0', m2.group(1) or '0')
